@@ -22,6 +22,7 @@ func checkC15(c *Ctx) {
 	c15Progress(c)
 	c15Unmarked(c)
 	c15Determinism(c)
+	c15RecoverReported(c)
 	c.NotCovered("index-out-of-range / nil dereference / failed type assertion on arbitrary damaged input (value reasoning)")
 	c.NotCovered("in-bounds source ranges of diagnostics")
 	c.NotCovered("progress of byte-level scanners (Ragel machines, json scanner): arithmetic facts")
@@ -445,4 +446,184 @@ func mapRangeOrderSensitive(r *ssa.Range) (sensitive, sorted bool) {
 		}
 	}
 	return
+}
+
+// R6: a parser recovery is never silent.
+func c15RecoverReported(c *Ctx) {
+	c.Rule("R6 recover.reported: every call of (*parser).recover / recoverOver / recoverAfterBodyItem / setRecovery in hclsyntax is reached, on every path from the function's entry, only after an error diagnostic was appended in that function, or with p.recovery already true (an earlier error was reported), or under the true edge of X.HasErrors(); recovering first makes the following `if !p.recovery` diagnostic dead and the damaged input is accepted silently")
+	targets := map[*ssa.Function]string{}
+	for _, n := range []string{"recover", "recoverOver", "recoverAfterBodyItem", "setRecovery"} {
+		f := c.P.LookupFunc("hclsyntax", "parser."+n)
+		if f == nil {
+			c.CheckerFail("recover.reported", "anchor (*parser)."+n+" does not resolve")
+			return
+		}
+		targets[f] = n
+	}
+	isRecoveryLoad := func(v ssa.Value) bool {
+		u, ok := v.(*ssa.UnOp)
+		if !ok || u.Op != token.MUL {
+			return false
+		}
+		fa, ok := u.X.(*ssa.FieldAddr)
+		if !ok {
+			return false
+		}
+		fv := fieldVarOf(fa.X.Type(), fa.Field)
+		return fv != nil && fv.Name() == "recovery" && isNamed(fa.X.Type(), hclsyntaxPath, "parser")
+	}
+	n := 0
+	for _, fn := range c.P.pkgFuncs("hclsyntax") {
+		if targets[fn] != "" {
+			continue
+		}
+		has := false
+		for _, b := range fn.Blocks {
+			for _, ins := range b.Instrs {
+				if call, ok := ins.(*ssa.Call); ok && targets[staticCallee(&call.Call)] != "" {
+					has = true
+				}
+			}
+		}
+		if !has {
+			continue
+		}
+		name := FuncName(fn)
+		c.Fn(name)
+		// must-analysis: reported[b] at block entry (AND over predecessors)
+		in := make([]int, len(fn.Blocks)) // -1 unvisited, 0 false, 1 true
+		for i := range in {
+			in[i] = -1
+		}
+		in[0] = 0
+		// a closure defined in a function inherits nothing: conservative
+		work := []*ssa.BasicBlock{fn.Blocks[0]}
+		type site struct {
+			call *ssa.Call
+			ok   bool
+		}
+		sites := map[*ssa.Call]bool{}
+		for len(work) > 0 {
+			b := work[len(work)-1]
+			work = work[:len(work)-1]
+			st := in[b.Index]
+			for _, ins := range b.Instrs {
+				switch x := ins.(type) {
+				case *ssa.Call:
+					if t := targets[staticCallee(&x.Call)]; t != "" {
+						sites[x] = st == 1
+						st = 1 // recovery is now set: later recoveries follow a reported error or this one
+						continue
+					}
+					if isDiagnosticsType(x.Type()) {
+						if bi, ok := x.Call.Value.(*ssa.Builtin); ok && bi.Name() == "append" && len(x.Call.Args) > 1 && sliceLitHasErrorDiag(x.Call.Args[1]) {
+							st = 1
+						}
+					}
+				case *ssa.Slice:
+					if isDiagnosticsType(x.Type()) && sliceLitHasErrorDiag(x) {
+						st = 1
+					}
+				}
+			}
+			for si, s := range b.Succs {
+				n := st
+				if iff, ok := b.Instrs[len(b.Instrs)-1].(*ssa.If); ok && b.Succs[0] != b.Succs[1] {
+					cond := iff.Cond
+					neg := false
+					if u, ok := cond.(*ssa.UnOp); ok && u.Op == token.NOT {
+						neg = true
+						cond = u.X
+					}
+					onTrue := (si == 0) != neg
+					if isRecoveryLoad(cond) && onTrue {
+						n = 1
+					}
+					if call, ok := cond.(*ssa.Call); ok && onTrue {
+						if cal := call.Call.StaticCallee(); cal != nil && cal.Name() == "HasErrors" {
+							n = 1
+						}
+					}
+				}
+				if in[s.Index] == -1 {
+					in[s.Index] = n
+					work = append(work, s)
+				} else if n < in[s.Index] {
+					in[s.Index] = n
+					work = append(work, s)
+				}
+			}
+		}
+		var calls []*ssa.Call
+		for call := range sites {
+			calls = append(calls, call)
+		}
+		sort.Slice(calls, func(i, j int) bool { return calls[i].Pos() < calls[j].Pos() })
+		// second chance: the recovery is followed, on every path to a return, by an
+		// error report that does not depend on p.recovery being false
+		reportedAfter := func(call *ssa.Call) bool {
+			seen := map[*ssa.BasicBlock]bool{}
+			var walk func(b *ssa.BasicBlock, from int) bool
+			walk = func(b *ssa.BasicBlock, from int) bool {
+				for i := from; i < len(b.Instrs); i++ {
+					switch x := b.Instrs[i].(type) {
+					case *ssa.Call:
+						if isDiagnosticsType(x.Type()) {
+							if bi, ok := x.Call.Value.(*ssa.Builtin); ok && bi.Name() == "append" && len(x.Call.Args) > 1 && sliceLitHasErrorDiag(x.Call.Args[1]) {
+								return true
+							}
+						}
+					case *ssa.Slice:
+						if isDiagnosticsType(x.Type()) && sliceLitHasErrorDiag(x) {
+							return true
+						}
+					case *ssa.Return:
+						return isErrorReturn(x)
+					case *ssa.Panic:
+						return true
+					}
+				}
+				for si, su := range b.Succs {
+					if iff, ok := b.Instrs[len(b.Instrs)-1].(*ssa.If); ok && b.Succs[0] != b.Succs[1] {
+						cond := iff.Cond
+						neg := false
+						if u, ok := cond.(*ssa.UnOp); ok && u.Op == token.NOT {
+							neg = true
+							cond = u.X
+						}
+						if isRecoveryLoad(cond) && ((si == 0) != neg) == false {
+							continue // p.recovery is true after a recovery: this edge is infeasible
+						}
+					}
+					if seen[su] {
+						continue
+					}
+					seen[su] = true
+					if !walk(su, 0) {
+						return false
+					}
+				}
+				return true
+			}
+			idx := 0
+			for i, ins := range call.Block().Instrs {
+				if ins == ssa.Instruction(call) {
+					idx = i + 1
+				}
+			}
+			return walk(call.Block(), idx)
+		}
+		for _, call := range calls {
+			n++
+			c.Sites++
+			t := targets[staticCallee(&call.Call)]
+			if !sites[call] && reportedAfter(call) {
+				c.OK("recover.reported", name+":call["+t+"]", call.Pos(), "an unconditional error report follows on every path")
+				continue
+			}
+			c.Check(sites[call], "recover.reported", name+":call["+t+"]", call.Pos(), "an error was reported on every path to this recovery",
+				"recovery without a reported error on some path: the input is damaged here but no error diagnostic has been appended (and a following `if !p.recovery` diagnostic can never fire)")
+		}
+	}
+	c.Floor("recover.reported sites", n, 40, "51 recovery call sites in the native parser")
 }
